@@ -372,7 +372,11 @@ package model
 //@   fnparam biasApplyProbGenerator pure
 //@   fnparam generator ensures 0.0 <= result && result < 1.0
 //@   requires forall i int :: 0 <= i && i < len(*biases) ==> (*biases)[i].Bias != nil && (*biases)[i].Props != nil
-//@   requires params != nil && wellFormed(listenerOf(*listeners, dm.PreferenceFunction), *params) && len(params.Criteria) > 0
+//@   requires [state] params != nil && len(params.Criteria) > 0
+//@   requires [criteria_distinct] distinctCriteria(params.Criteria)
+//@   requires [values_present] hasValues(params.ConsideredAlternatives, params.Criteria) && hasValues(params.NotConsideredAlternatives, params.Criteria)
+//@   requires [parameters_cover] validParams(listenerOf(*listeners, dm.PreferenceFunction), params.MethodParameters) && coversAll(listenerOf(*listeners, dm.PreferenceFunction), params.MethodParameters, params.Criteria)
+//@   requires [alternatives_distinct] distinctAlts(*params)
 //@   ensures [C08 one_entry_per_bias] fresh(result1) && len(*result1) == len(*biases)
 //@   ensures [C08 echo] forall i int :: 0 <= i && i < len(*biases) ==> typeis((*result1)[i], BiasParams)
 //@             && (*result1)[i].(BiasParams).Name == (*biases)[i].Props.Name
@@ -397,3 +401,78 @@ package model
 //@ lemma [C08] firing_is_monotone_in_probability: forall p real, q real, u real
 //@   requires p <= q && p > u
 //@   ensures  q > u
+
+// ---- decision-maker.go: MakeDecision and what it validates (C20, C07, C01)
+
+//@ pred chosen(dm DecisionMaker, id string) = exists k int :: 0 <= k && k < len(dm.ChoseToMake) && dm.ChoseToMake[k] == id
+//@ pred validCriteria(c []Criterion) = distinctCriteria(c) && forall i int :: 0 <= i && i < len(c) && c[i].ValuesRange != nil ==> c[i].ValuesRange.Max > c[i].ValuesRange.Min
+
+//@ func (*DecisionMaker).validateAlternatives
+//@   property C20 C07
+//@   panics_iff [missing_value] exists i int, c int :: 0 <= i && i < len(dm.KnownAlternatives) && 0 <= c && c < len(dm.Criteria) && !(dm.Criteria[c].Id in dm.KnownAlternatives[i].Criteria)
+//@   loop 1 invariant [outer] forall i int, c int :: 0 <= i && i < iter && 0 <= c && c < len(dm.Criteria) ==> dm.Criteria[c].Id in dm.KnownAlternatives[i].Criteria
+//@   loop 2 invariant [outer] forall j int, c int :: 0 <= j && j < i && 0 <= c && c < len(dm.Criteria) ==> dm.Criteria[c].Id in dm.KnownAlternatives[j].Criteria
+//@   loop 2 invariant [inner] forall c int :: 0 <= c && c < iter ==> dm.Criteria[c].Id in a.Criteria
+//@   loop 2 invariant [ctx] 0 <= i && i < len(dm.KnownAlternatives) && a == dm.KnownAlternatives[i]
+
+//@ func (*DecisionMaker).NotConsideredAlternatives
+//@   property C09 C01 C07
+//@   ensures [fresh] fresh(result)
+//@   ensures [only_unchosen_known] forall k int :: 0 <= k && k < len(*result) ==> exists j int :: 0 <= j && j < len(dm.KnownAlternatives) && (*result)[k] == dm.KnownAlternatives[j] && !chosen(*dm, dm.KnownAlternatives[j].Id)
+//@   ensures [all_unchosen] forall j int :: 0 <= j && j < len(dm.KnownAlternatives) && !chosen(*dm, dm.KnownAlternatives[j].Id) ==> exists k int :: 0 <= k && k < len(*result) && (*result)[k] == dm.KnownAlternatives[j]
+//@   ensures [distinct] (forall i int, j int :: 0 <= i && i < j && j < len(dm.KnownAlternatives) ==> dm.KnownAlternatives[i].Id != dm.KnownAlternatives[j].Id)
+//@             ==> forall i int, j int :: 0 <= i && i < j && j < len(*result) ==> (*result)[i].Id != (*result)[j].Id
+//@   loop 1 invariant [distinct] (forall i int, j int :: 0 <= i && i < j && j < len(dm.KnownAlternatives) ==> dm.KnownAlternatives[i].Id != dm.KnownAlternatives[j].Id)
+//@             ==> forall i int, j int :: 0 <= i && i < j && j < len(result) ==> result[i].Id != result[j].Id
+//@   loop 1 invariant [ctx] cap(result) == 0 || fresh(result)
+//@   loop 1 invariant [only] forall k int :: 0 <= k && k < len(result) ==> exists j int :: 0 <= j && j < iter && result[k] == dm.KnownAlternatives[j] && !chosen(*dm, dm.KnownAlternatives[j].Id)
+//@   loop 1 invariant [all] forall j int :: 0 <= j && j < iter && !chosen(*dm, dm.KnownAlternatives[j].Id) ==> exists k int :: 0 <= k && k < len(result) && result[k] == dm.KnownAlternatives[j]
+
+// funcOf: the preference function registered under a name (uninterpreted; Fetch is specified to return it).
+// listensFor(l, f): configuration fact "listener l is the one registered for method f": what f.ParseParams builds is what l understands.
+//@ spec funcOf(fs PreferenceFunctions, name string) PreferenceFunction
+//@ spec listensFor(l BiasListener, f PreferenceFunction) bool
+//@ func (*PreferenceFunctions).Fetch
+//@   trusted
+//@   ensures result != nil && *result == funcOf(*pf, function)
+
+//@ ifacemethod PreferenceFunction.ParseParams
+//@   ensures forall l BiasListener :: listensFor(l, self) ==> validParams(l, result) && coversAll(l, result, dm.Criteria)
+
+//@ func (*DecisionMaker).prepareParams
+//@   property C07 C01 C20
+//@   requires preferenceFunction != nil
+//@   ensures [state] fresh(result) && result.Criteria == dm.Criteria
+//@   ensures [considered_are_chosen] len(result.ConsideredAlternatives) == len(dm.ChoseToMake) && fresh(result.ConsideredAlternatives)
+//@             && forall i int :: 0 <= i && i < len(dm.ChoseToMake) ==> result.ConsideredAlternatives[i].Id == dm.ChoseToMake[i]
+//@             && (exists j int :: 0 <= j && j < len(dm.KnownAlternatives) && result.ConsideredAlternatives[i] == dm.KnownAlternatives[j])
+//@   ensures [others_are_known_unchosen] forall k int :: 0 <= k && k < len(result.NotConsideredAlternatives) ==>
+//@             exists j int :: 0 <= j && j < len(dm.KnownAlternatives) && result.NotConsideredAlternatives[k] == dm.KnownAlternatives[j] && !chosen(*dm, dm.KnownAlternatives[j].Id)
+//@   ensures [others_distinct] (forall i int, j int :: 0 <= i && i < j && j < len(dm.KnownAlternatives) ==> dm.KnownAlternatives[i].Id != dm.KnownAlternatives[j].Id)
+//@             ==> forall i int, j int :: 0 <= i && i < j && j < len(result.NotConsideredAlternatives) ==> result.NotConsideredAlternatives[i].Id != result.NotConsideredAlternatives[j].Id
+//@   ensures [parameters_parsed] forall l BiasListener :: listensFor(l, *preferenceFunction) ==> validParams(l, result.MethodParameters) && coversAll(l, result.MethodParameters, dm.Criteria)
+
+//@ func ChooseBiases
+//@   property C08 C20
+//@   ensures [enabled_known_biases] result != nil && forall k int :: 0 <= k && k < len(*result) ==>
+//@             (*result)[k].Props != nil && !(*result)[k].Props.Disabled && (*result)[k].Bias != nil
+//@             && (*result)[k].Props.Name in *available && *(*result)[k].Bias == (*available)[(*result)[k].Props.Name]
+//@   ensures [at_most_requested] len(*result) <= len(*choose)
+//@   loop 1 invariant [enabled_known_biases] forall k int :: 0 <= k && k < len(result) ==>
+//@             result[k].Props != nil && !result[k].Props.Disabled && result[k].Bias != nil
+//@             && result[k].Props.Name in *available && *result[k].Bias == (*available)[result[k].Props.Name]
+//@   loop 1 invariant [at_most_requested] len(result) <= iter && (cap(result) == 0 || fresh(result))
+
+//@ ifacemethod PreferenceFunction.Evaluate
+//@   ensures result != nil
+
+//@ func (*DecisionMaker).MakeDecision
+//@   property C20 C07 C08
+//@   fnparam biasApplyProbGenerator pure
+//@   requires [registries_consistent] forall name string :: listensFor(listenerOf(biasListeners, name), funcOf(preferenceFunctions, name))
+//@   requires [distinct_alternatives] (forall i int, j int :: 0 <= i && i < j && j < len(dm.KnownAlternatives) ==> dm.KnownAlternatives[i].Id != dm.KnownAlternatives[j].Id)
+//@             && (forall i int, j int :: 0 <= i && i < j && j < len(dm.ChoseToMake) ==> dm.ChoseToMake[i] != dm.ChoseToMake[j])
+//@   requires [some_criterion] len(dm.Criteria) > 0
+//@   ensures [C20 validated_before_answering] validCriteria(dm.Criteria)
+//@             && (forall i int, c int :: 0 <= i && i < len(dm.KnownAlternatives) && 0 <= c && c < len(dm.Criteria) ==> dm.Criteria[c].Id in dm.KnownAlternatives[i].Criteria)
+//@   ensures [C08 one_report_per_enabled_bias] result != nil && forall i int :: 0 <= i && i < len(result.Biases) ==> typeis(result.Biases[i], BiasParams) && !result.Biases[i].(BiasParams).Disabled
